@@ -66,7 +66,13 @@ class SetRejectFilter(Filter):
 
 
 def impl(case):
-    grammar = build_grammar(case["grammar"])
+    try:
+        grammar = build_grammar(case["grammar"])
+    except KeyError:
+        return {"skip": True, "why": "empty language (C01 known finding)"}
+    n = grammar.programs()
+    if n <= 0 or n > case.get("max_lang", 1500):
+        return {"skip": True, "why": "language size %d outside [1, max_lang]" % n}
     pg = make_weights(grammar, case["weights"])
     en = ENUMS[case["enum"]](pg, case.get("params", {}))
     if case.get("rejected") is not None:
@@ -86,6 +92,12 @@ def impl(case):
             p = next(it)
         except StopIteration:
             break
+        except BaseException as e:
+            if type(e).__name__ == "CaseTimeout":
+                # keep what was produced so far: the checker still validates the prefix
+                ended = "timeout"
+                break
+            raise
         out.append(O.prog_wire(p))
         if len(out) >= limit:
             ended = "limit"
